@@ -143,7 +143,9 @@ LxHandles(lx, svc, segs) ==
 SvcR(fail, reply, lx) == [fail |-> fail, reply |-> reply, lx |-> lx]
 \* per call: the failed services (few) and the set of slices that had a successful service (kept small: huge request
 \* lists usually repeat a few slices)
-SvcFailed(svc, status) == ~(status = 0 \/ (status = 6 /\ svc = 82))
+\* status 6 (partial transfer) is success for Read Tag Fragmented and unspecified for Write Tag Fragmented (the
+\* library lists it as a continuing service); every other non-zero status is a failure
+SvcFailed(svc, status) == ~(status = 0 \/ (status = 6 /\ svc \in {82, 83}))
 \* Only statuses INJECTED by the scenario are logged as failures: an error the target returns on its own for a
 \* request whose intent is valid means the driver asked for the wrong thing, and the result is judged as usual.
 LogInjected(lx, r, svc, status, ext) ==
@@ -166,7 +168,9 @@ TagService(lx0, svc, rawpath, segs, data, cap, choice, embedded) ==
     IF Len(inj) > 0 THEN
         LET st == inj[1][2]  ext == SubSeq(inj[1], 3, Len(inj[1]))
             lx2 == IF r.ok THEN LogInjected(lx1, r, svc, st, ext) ELSE lx1
-        IN SvcR("", MRReply(svc, st, ext, <<>>), DropXfer(lx2, rawpath, svc))
+            \* a fragment answered with an injected error: the offsets of the rest of this transfer are no longer checked
+            lx3 == IF svc \in {82, 83} THEN PutXfer(lx2, [path |-> rawpath, svc |-> svc, next |-> -1, total |-> 0, count |-> 0]) ELSE lx2
+        IN SvcR("", MRReply(svc, st, ext, <<>>), lx3)
     ELSE IF ~r.ok THEN SvcR("", MRReply(svc, r.status, r.ext, <<>>), lx1)
     ELSE LET es == TSize(P, r.t)  mem == MemOf(lx1, r.key)  hdr == TypeHeader(P, r.t) IN
     IF svc \in {76, 82} THEN                                                              \* Read Tag / Read Tag Fragmented
@@ -192,9 +196,9 @@ TagService(lx0, svc, rawpath, segs, data, cap, choice, embedded) ==
                   IN
                   IF svc = 76 /\ more THEN SvcR("C04:reply-too-large+C01:falsy-for-existing", <<>>, lx3)
                   ELSE IF svc = 82 /\ xi = {} /\ start # 0 THEN SvcR("C04:first-offset", <<>>, lx3)
-                  ELSE IF svc = 82 /\ xi # {} /\ start # expected THEN SvcR("C04:read-offset+C01:value", <<>>, lx3)
+                  ELSE IF svc = 82 /\ xi # {} /\ expected >= 0 /\ start # expected THEN SvcR("C04:read-offset+C01:value", <<>>, lx3)
                   ELSE SvcR("", MRReply(svc, IF more THEN 6 ELSE 0, <<>>, hdr \o chunk),
-                            IF svc = 82 THEN (IF more THEN PutXfer(lx3, [path |-> rawpath, svc |-> 82, next |-> start + got, total |-> total, count |-> n])
+                            IF svc = 82 THEN (IF more THEN PutXfer(lx3, [path |-> rawpath, svc |-> 82, next |-> IF expected < 0 THEN -1 ELSE start + got, total |-> total, count |-> n])
                                               ELSE DropXfer(lx3, rawpath, 82))
                             ELSE lx3)
     ELSE IF svc \in {77, 83} THEN                                                         \* Write Tag / Write Tag Fragmented
@@ -222,9 +226,9 @@ TagService(lx0, svc, rawpath, segs, data, cap, choice, embedded) ==
              IN
              IF start + Len(val) > n * es THEN SvcR("", MRReply(svc, 21, <<>>, <<>>), LogSvc(lx1, r, svc, 21, <<>>))
              ELSE IF Len(val) = 0 THEN SvcR("", MRReply(svc, 19, <<>>, <<>>), LogSvc(lx1, r, svc, 19, <<>>))
-             ELSE IF start # expected \/ cnt # n THEN SvcR("C04:write-tiling+C02:effect", <<>>, lx1)
+             ELSE IF expected >= 0 /\ (start # expected \/ cnt # n) THEN SvcR("C04:write-tiling+C02:effect", <<>>, lx1)
              ELSE LET lx2 == [SetMem(lx1, r.key, Patch(mem, r.off + start, val)) EXCEPT !.ledger = Append(@, [key |-> r.key, off |-> r.off + start, len |-> Len(val), bit |-> -1])]
-                      lx3 == IF start + Len(val) < n * es THEN PutXfer(lx2, [path |-> rawpath, svc |-> 83, next |-> start + Len(val), total |-> n * es, count |-> n])
+                      lx3 == IF start + Len(val) < n * es THEN PutXfer(lx2, [path |-> rawpath, svc |-> 83, next |-> IF expected < 0 THEN -1 ELSE start + Len(val), total |-> n * es, count |-> n])
                              ELSE DropXfer(lx2, rawpath, 83)
                   IN SvcR("", MRReply(svc, 0, <<>>, <<>>), LogSvc(lx3, r, svc, 0, <<>>))
     ELSE                                                                                  \* Read-Modify-Write
